@@ -742,7 +742,8 @@ fn process_input(
         have_pending_command = true;
     }
 
-    if !options.no_run_if_empty || have_pending_command {
+    // In replace mode there is no line to substitute, hence nothing to run, when the input is empty.
+    if have_pending_command || !(options.no_run_if_empty || builder_options.replace.is_some()) {
         result.combine(current_builder.execute()?);
     }
 
